@@ -133,15 +133,15 @@ neighbor 127.0.0.2 {
   local-address 127.0.0.1;
   local-as 65001;
   peer-as 65001;
-  capability { asn4 %(asn4)s; add-path %(addpath)s; aigp enable; nexthop enable; }
+  capability { asn4 %(asn4)s; add-path %(addpath)s; aigp enable; %(nexthop)s }
   family { all; }
-  nexthop { ipv4 unicast ipv6; ipv4 multicast ipv6; ipv4 nlri-mpls ipv6; ipv4 mpls-vpn ipv6; ipv6 unicast ipv4; }
+  %(nexthop_section)s
 }
 """
 C15_EXT_NH = [(1, 1, 2), (1, 2, 2), (1, 4, 2), (1, 128, 2), (2, 1, 1)]
 
 
-def negotiated_all_families(families, asn4: bool = True, addpath: bool = False, direction_out: bool = True):
+def negotiated_all_families(families, asn4: bool = True, addpath: bool = False, direction_out: bool = True, ext_nh: bool = False):
     """A real Negotiated for `families` [(afi, safi) ints].  Our OPEN is built from a text-parsed neighbor with
     'family all'; its ADD-PATH capability is overridden the way exabgp.configuration.check._negotiated does it, so that
     families the add-path section cannot name (ipv6 multicast, ipv4 rtc) are covered too.  The peer OPEN is reference
@@ -150,7 +150,9 @@ def negotiated_all_families(families, asn4: bool = True, addpath: bool = False, 
     from exabgp.bgp.message.open.capability.addpath import AddPath
     from exabgp.protocol.family import AFI, SAFI
 
-    cfg, neighbor = neighbor_from_text(C15_NEIGHBOR % dict(asn4='enable' if asn4 else 'disable', addpath='send/receive' if addpath else 'disable'))
+    cfg, neighbor = neighbor_from_text(C15_NEIGHBOR % dict(
+        asn4='enable' if asn4 else 'disable', addpath='send/receive' if addpath else 'disable', nexthop='nexthop enable;' if ext_nh else '',
+        nexthop_section='nexthop { ipv4 unicast ipv6; ipv4 multicast ipv6; ipv4 nlri-mpls ipv6; ipv4 mpls-vpn ipv6; ipv6 unicast ipv4; }' if ext_nh else ''))
     ours = our_open(neighbor)
     if addpath:
         fams = [(AFI.from_int(a), SAFI.from_int(s)) for a, s in families]
@@ -160,8 +162,10 @@ def negotiated_all_families(families, asn4: bool = True, addpath: bool = False, 
         caps.append(wire.cap_asn4(65001))
     if addpath:
         caps.append(wire.cap_addpath([(a, s, 3) for a, s in families]))
-    caps.append(wire.cap_ext_nh(C15_EXT_NH))
-    body = wire.encode_open(65001, 180, '9.9.9.9', caps, style='all-in-one')
+    if ext_nh:
+        caps.append(wire.cap_ext_nh(C15_EXT_NH))
+    # RFC 9072 extended optional parameters: 23 families with ADD-PATH do not fit 255 octets
+    body = wire.encode_open(65001, 180, '9.9.9.9', caps, style='extended')
     from exabgp.bgp.message.direction import Direction
     from exabgp.bgp.message.open.capability.negotiated import Negotiated
 
